@@ -499,9 +499,10 @@ static int ec_edit(char *loc, char *cmd, char *arg, char *txt)
 		else
 			ex_show(msg);
 	}
-	if (!rd || path[0])	/* a reload that cannot read the file keeps the changes */
+	if (!rd || path[0]) {	/* a reload that cannot read the file keeps the changes */
 		lbuf_saved(xb, path[0] != '\0');
-	bufs[0].mtime = mtime(ex_path());
+		bufs[0].mtime = mtime(ex_path());	/* and the time of the version it has */
+	}
 	xrow = MAX(0, MIN(xrow, lbuf_len(xb) - 1));
 	xoff = 0;
 	xtop = MAX(0, MIN(xtop, lbuf_len(xb) - 1));
